@@ -839,8 +839,24 @@ func c12NameRecorded(c *Ctx, rule string) {
 			}
 			isRecord := func(i ssa.Instruction) bool {
 				mu, ok := i.(*ssa.MapUpdate)
-				if !ok || mu.Key != ssa.Value(call) {
+				if !ok {
 					return false
+				}
+				if mu.Key != ssa.Value(call) {
+					// ... or the name read back from the slot it was just stored in (names[i] = mkname(sf); m[names[i]] = ...)
+					ld, isLd := mu.Key.(*ssa.UnOp)
+					if !isLd || ld.Op != token.MUL {
+						return false
+					}
+					stored := false
+					for _, r := range *call.Referrers() {
+						if st, isSt := r.(*ssa.Store); isSt && st.Val == ssa.Value(call) && st.Block() == ld.Block() && sameValue(st.Addr, ld.X) {
+							stored = true
+						}
+					}
+					if !stored {
+						return false
+					}
 				}
 				_, isFld := loadOfTypeField(mu.Map, rel+".Set", "flagFieldName")
 				return isFld
